@@ -7,8 +7,8 @@ set_option linter.unusedVariables false
 
 Theorems about the model of the writer's encryptor, the reader's decryptor, the trailer and the
 authentication of the dictionary the writer creates.  Hash functions are uninterpreted, RC4 is
-concrete, AES enters through the hypothesis `AesOK` (every key schedule of the FIPS-197
-transcription gives a mutually inverse pair of block functions — trusted, see C23).
+concrete, AES entered through the hypothesis `AesOK`, now the theorem `aesOK` (every key schedule of the FIPS-197
+transcription gives a mutually inverse pair of block functions — proved in `Lemmas/C23Aes.lean`).
 
 The unchanged tree violates the full statement in three ways; each has its FULL statement in a
 comment, a `_partial` theorem and a kernel-checked witness:
@@ -247,14 +247,14 @@ theorem C05_rc4_object_cipher (key : Bytes) (num gen : Nat) (iv data : Bytes) :
   simp [decryptData, encryptData, rc4_involutive]
 
 /-- AESV2 / AESV3: IV ‖ CBC(PKCS#7(data)) decrypts to the data, for every 16-byte IV. -/
-theorem C05_aes_object_cipher (hA : AesOK) (cfm : Nat) (hc : cfm = 2 ∨ cfm = 3) (key : Bytes) (num gen : Nat)
+theorem C05_aes_object_cipher (cfm : Nat) (hc : cfm = 2 ∨ cfm = 3) (key : Bytes) (num gen : Nat)
     (iv data : Bytes) (hiv : iv.length = 16)
     (hk : (cfm = 2 → key.length ≥ 11) ∧ (cfm = 3 → key.length = 32)) :
     decryptData cfm key num gen (encryptData cfm key num gen iv data) = some data :=
-  aes_object_cipher hA cfm hc key num gen iv data hiv hk
+  aes_object_cipher aesOK cfm hc key num gen iv data hiv hk
 
-example : AesOK → decryptData 2 (List.replicate 16 7) 12 0 (encryptData 2 (List.replicate 16 7) 12 0 (List.replicate 16 1) [1, 2, 3]) = some [1, 2, 3] :=
-  fun hA => C05_aes_object_cipher hA 2 (Or.inl rfl) _ 12 0 _ _ (by simp) ⟨fun _ => by simp, fun h => by omega⟩
+example : decryptData 2 (List.replicate 16 7) 12 0 (encryptData 2 (List.replicate 16 7) 12 0 (List.replicate 16 1) [1, 2, 3]) = some [1, 2, 3] :=
+  C05_aes_object_cipher 2 (Or.inl rfl) _ 12 0 _ _ (by simp) ⟨fun _ => by simp, fun h => by omega⟩
 
 /-! ## Authentication of the dictionary the writer creates -/
 
@@ -338,7 +338,7 @@ def writerDict5 (upw opw vsU ksU vsO ksO fileKey : Bytes) (p : Nat) (id : Bytes)
 
 /-- The user password unlocks the writer's AES-256 dictionary and recovers exactly the random
 file key (for every password up to any length, all salts of 8 bytes, every 32-byte key). -/
-theorem C05_user_password_unlocks_r5 (hA : AesOK) (upw opw vsU ksU vsO ksO fileKey : Bytes) (p : Nat) (id : Bytes)
+theorem C05_user_password_unlocks_r5 (upw opw vsU ksU vsO ksO fileKey : Bytes) (p : Nat) (id : Bytes)
     (h1 : vsU.length = 8) (h2 : ksU.length = 8) (hk : fileKey.length = 32) :
     unlockUser (writerDict5 upw opw vsU ksU vsO ksO fileKey p id) upw = .key fileKey := by
   have hs : ∀ m, (sha256 m).length = 32 := sha256_length
@@ -351,7 +351,7 @@ theorem C05_user_password_unlocks_r5 (hA : AesOK) (upw opw vsU ksU vsO ksO fileK
     rw [List.drop_left' (by simp [hs, h1]), List.take_of_length_le (by omega)]
   have ht : (sha256 (upw ++ vsU) ++ vsU ++ ksU).take 32 = sha256 (upw ++ vsU) := by
     simp only [List.append_assoc]; rw [List.take_left' (hs _)]
-  obtain ⟨c, hc1, hc2, hc3⟩ := aesCbcRaw_roundtrip hA (sha256 (upw ++ ksU ++ [])) fileKey (hs _) (by omega)
+  obtain ⟨c, hc1, hc2, hc3⟩ := aesCbcRaw_roundtrip aesOK (sha256 (upw ++ ksU ++ [])) fileKey (hs _) (by omega)
   have htk : (sha256 (upw ++ ksU ++ [])).take 32 = sha256 (upw ++ ksU ++ []) := List.take_of_length_le (by rw [hs]; omega)
   simp only [unlockUser, writerDict5, handlerOf, show (5:Nat) ≥ 5 from by omega, if_true,
     validateUser56, entryPrefix, hu, show ¬ (48:Nat) < 48 from by omega, if_false, hashCode,
